@@ -158,7 +158,7 @@ def degenerate_case(rng, *, hermitian=True, fmt="dense", pattern=(1, 0, 0), max_
     return dict(sub=sub, nparam=nparam, N=N, H=H, hermitian=hermitian, fully=(None if default_full else [0]), fmt=fmt)
 
 
-NSPECIAL = 18
+NSPECIAL = 20
 
 
 def special_case(rng, k, *, hermitian=True, N=3, max_params=2):
@@ -181,6 +181,10 @@ def special_case(rng, k, *, hermitian=True, N=3, max_params=2):
         return degenerate_case(rng, hermitian=hermitian, fmt="dense", pattern=(0, 1, 0), max_params=max_params, N=N, extra_block=True)
     if k == 7:
         return degenerate_case(rng, hermitian=hermitian, fmt="sympy", pattern=(1, 0, 1, 0), max_params=1, N=N, default_full=True)
+    if k == 18:
+        return mask_degenerate_case(rng, hermitian=hermitian, fmt="sympy", max_params=max_params, N=N)
+    if k == 19:
+        return mask_degenerate_case(rng, hermitian=hermitian, fmt="dense", max_params=max_params, N=N)
     if k == 16:
         return scaled_case(rng, hermitian=hermitian, N=N, max_params=max_params, power=-30)
     if k == 17:
@@ -342,6 +346,35 @@ def scaled_case(rng, *, hermitian=True, N=3, max_params=2, power=-30):
     f = Fr(2) ** power
     c["H"] = {k: gq.enc([[x * G(f) for x in row] for row in gq.dec(M)]) for k, M in c["H"].items()}
     return c
+
+
+def mask_degenerate_case(rng, *, hermitian=True, fmt="sympy", max_params=2, N=3):
+    """A masked block with a degenerate level (a, a, b) whose two degenerate partners are treated DIFFERENTLY by the
+    mask: only the pair (0, 2) is eliminated, (1, 2) is kept (the mask must not be extended to whole eigenspaces)."""
+    exactfloat = fmt != "sympy"
+    extra = rng.random() < 0.5
+    sub = [0, 0, 0] + ([1] if extra else [])
+    lv = [0, 0, 1] + ([2] if extra else [])
+    perm = list(range(3))
+    rng.shuffle(perm)                      # position of the three states of block 0 among themselves
+    E = [None] * len(sub)
+    for a_, p_ in enumerate(perm):
+        E[p_] = G(Fr(lv[a_]))
+    if extra:
+        E[3] = G(Fr(2))
+    m = [[0] * 3 for _ in range(3)]
+    x, y = perm[0], perm[2]
+    m[x][y] = 1
+    if hermitian or rng.random() < 0.5:
+        m[y][x] = 1
+    nparam = rng.randint(1, max_params)
+    H = {key((0,) * nparam): gq.enc(diag_matrix(E))}
+    cplx = rng.random() < 0.5
+    n = len(sub)
+    for o in [o for o in gq.orders_upto(nparam, 2) if sum(o) >= 1]:
+        if sum(o) == 1 or rng.random() < 0.25:
+            H[key(o)] = gq.enc(rand_matrix(rng, n, herm=hermitian, cplx=cplx, dyadic=exactfloat, density=1.0))
+    return dict(sub=sub, nparam=nparam, N=N, H=H, hermitian=hermitian, fully={"0": m}, fmt=fmt)
 
 
 def coupled_late_case(rng, *, hermitian=True, fmt=None, N=4, expr=False):
